@@ -858,6 +858,16 @@ class Exec:
                 return with_prov(ElemPtr(v.arr, v.idx, cast=norm(ty)), v.prov)
             if isinstance(v, ArrRef) and re.fullmatch(r'\*(const|mut) (T|MaybeUninit<T>)', norm(ty)):
                 return with_prov(ElemPtr(v.arr, bv(0)), v.prov)
+            if 'Transmute' in m.group(3) and isinstance(v, Slice):
+                # a fat pointer keeps its LENGTH WORD (element count): reinterpreting `&[Chunk]` as `&[T]` (or back) does not rescale it
+                tgt_chunk = bool(re.match(r"^&(?:'\w+ )?(?:mut )?\[(?:GenericArray<|\[)", norm(ty)))
+                if v.stride is not None and not tgt_chunk:
+                    cnt = s.slice_len(st, v)
+                    v = with_prov(Slice(v.arr, v.start, v.start + cnt), v.prov)
+                elif v.stride is None and tgt_chunk:
+                    cnt = v.end - v.start
+                    s.require(st, z3.And(MULOK(cnt, s.N), ULE(v.start + cnt * s.N, v.arr.len)), 'slice reference transmuted to a slice of chunks: the unscaled length reaches beyond the source', 'transmute')
+                    v = with_prov(Slice(v.arr, v.start, v.start + cnt * s.N, stride=s.N), v.prov)
             if 'Transmute' in m.group(3) and isinstance(v, _Ptr) and norm(ty).startswith('&mut'):
                 s.require(st, z3.BoolVal(v.prov != 'shared'), 'mutable reference created (transmute) from a pointer that was derived through a shared borrow', 'transmute')
             return v
